@@ -144,6 +144,11 @@ func (fr *Frame) staticCall(callee *ssa.Function, binds []*Val, args []*Val, st 
 	u := fr.u
 	eng := u.eng
 	key := fnKey(callee)
+	if rc := callee.Signature.Recv(); rc != nil && len(args) > 0 && eng.isOwnFunc(callee) {
+		if _, isPtr := rc.Type().Underlying().(*types.Pointer); isPtr && args[0].K == vTerm && !fr.knownNonNil(args[0].T) {
+			u.oblige(fr, st, "nil", "recv."+callee.Name(), fmt.Sprintf("(distinct %s nil)", args[0].T), pos, "method call on a nil pointer receiver")
+		}
+	}
 	// 1. stdlib model
 	if m, ok := stdModels[extName(callee)]; ok {
 		u.usedStd[extName(callee)] = true
@@ -154,7 +159,7 @@ func (fr *Frame) staticCall(callee *ssa.Function, binds []*Val, args []*Val, st 
 		return fr.applyContract(ct, callee, nil, args, st, pos, resTy, key)
 	}
 	// 3. inline
-	if len(callee.Blocks) > 0 && fr.depth < maxInlineDepth && !fr.onStack(callee) && instrCount(callee) <= maxInlineInstrs && !eng.noInline[key] {
+	if len(callee.Blocks) > 0 && eng.isOwnFunc(callee) && fr.depth < maxInlineDepth && !fr.onStack(callee) && instrCount(callee) <= maxInlineInstrs && !eng.noInline[key] {
 		return fr.inline(callee, binds, args, st, pos)
 	}
 	// 4. havoc
@@ -221,7 +226,7 @@ func (fr *Frame) havocCall(callee *ssa.Function, args []*Val, st *State, pos tok
 	u := fr.u
 	name := extName(callee)
 	ms := u.eng.modsetOf(u, callee)
-	if len(callee.Blocks) == 0 {
+	if len(callee.Blocks) == 0 || !u.eng.isOwnFunc(callee) {
 		u.note("external call without model (results unconstrained, no heap effect assumed): " + name)
 	} else {
 		u.note("uncontracted call (results unconstrained, modset havocked): " + fnKey(callee))
